@@ -16,6 +16,32 @@ deleted afterwards), all VIOLATION with a shrunk replay, quick tier, seed 0:
   M12 docids() cached on (indexed_count, not_indexed_count)
 and the seeded changes C01_C (range fast path ignoring exclusive bounds) and C01_F (postings start as Set, promoted to
 TreeSet at 64 docids, the 65th docid is lost).
+
+Round 4 (measured, quick tier, seed 0, 4001 cases; shares of the older modes shift accordingly: small 79%, bulk-hot 16%,
+bulk-wide 4%):
+  huge modes      4 cases per quick run (case 2 of shards 0, 4, 8, 12: 3 `huge-distinct` = 4110-6000 documents with
+                  pairwise distinct int values, 1 `huge-posting` = one value shared by more than 4096 documents),
+                  thorough: case 2, 402, .. of every shard (112 cases, 15% of the distinct ones with 8200-9000 documents).
+                  Loaded by `bindex` (kept by the shrinker), a document without a value, a short ordinary history, then the
+                  range battery with bounds EQUAL to stored values: all four flag combinations of inrange, three of
+                  notinrange, lt/le/gt/ge, absent-neighbour bounds, ranges of exactly 4096 and 4097 stored values, a narrow
+                  range, any/notany/eq.  Per quick run 36 range queries cover more than 4097 distinct stored values, 12
+                  exactly 4096/4097.  The model needs 0.3-0.6 s per query there (quadratic association lists): a huge
+                  case costs 6-10 s, the quick tier 16-24 s wall.
+  value None      23% of the cases use a pool `X+none` (int, str, num, bytes, wide) whose lowest value is None (attribute
+                  present and None / callable discriminator returning None: a VALUE for FieldIndex, ordered before
+                  everything by OO BTrees; in 85% of these cases None is among the values used).  None is never a query
+                  constant: as a bound it means "open", and FieldIndex.apply(None) = values(None, None) = every indexed
+                  document (so `index.eq(None)` does not select the documents whose value is None - outside the generators).
+  any-of argument applyAny / applyNotAny / any() / notany() get a list (18%), tuple, set, frozenset, dict keys view,
+                  generator, iterator or map object (8-15% each), chosen by a hash of the command.
+Seeded C01_G (range over more than 4096 distinct values tests the upper bound with excludemin) and C06_G (unindex_doc takes
+a None value for "not indexed") were missed before and are caught now.  Further mutations of these classes
+(VERIF_REPO=/var/tmp/mut_s6/<X>, deleted afterwards), VIOLATION on quick seed 0:
+  A  BaseIndexMixin._negate subtracts an answer of more than 4096 ids from indexed() instead of docids() (needs a huge
+     positive answer and a document without a value)                     caught by 3 of the 4 huge cases
+  C  FieldIndex.index_doc tests `rev_index.get(docid) is not None` instead of `docid in rev_index` (needs a document
+     whose value None is re-indexed)                                     caught (C01 and C06)
 """
 import zlib
 
@@ -43,7 +69,12 @@ RULE = ("small mode (78%): histories of 5-60 (thorough: up to 400) index_doc/rei
         "of numbers (Eq with a tuple constant = finding D13), bytes (incl. b''), 120 ints / 120 strings. After "
         "each op with prob. 1/4 and at the end all ten comparisons via index.applyX and via "
         "index.X(..).execute() with constants present/absent/neighbouring/below/above, inverted ranges, empty and "
-        "duplicate any-lists; FieldIndex.apply() itself with {'query': v}, {'query': [..], 'operator': "
+        "duplicate any-lists (handed over as list, tuple, set, frozenset, dict keys view, generator, iterator, map); "
+        "23% of the cases draw from a pool whose lowest VALUE is None (never a query constant); 4 huge cases per quick "
+        "run (thorough 112): 4110-6000 (thorough also 8200-9000) documents with pairwise distinct values, or one value "
+        "shared by more than 4096 documents, a document without a value, a short history, then ranges with bounds equal "
+        "to stored values under all four exclusive-flag combinations covering more than 4096 / exactly 4096 / 4097 "
+        "distinct stored values; FieldIndex.apply() itself with {'query': v}, {'query': [..], 'operator': "
         "'or'/'and'/absent}, bare value, list, RangeValue (bare and in a dict); the enumeration tuple (indexed, "
         "not_indexed, docids, counts, unique_values; sometimes twice in a row) and document_repr; both BTrees "
         "families; attribute and callable discriminators. non-trivial = the answers contain at least one "
@@ -418,6 +449,10 @@ def gen_huge(rng, tier, fam, variant):
     fresh = [ids[-1] + 1000 + i for i in range(3)] if ids[-1] + 1003 < top else [ids[0] - 1000 - i for i in range(3)]
     some = sorted(set([ids[0], ids[-1]] + rng.sample(ids, 6) + fresh))
     used = sorted(set(rng.sample(vals, 6) + [rng.randrange(npool) for _ in range(2)]))
+    if rng.random() < 0.75:
+        # a document without a value next to the huge index (negations must still list it)
+        cmds.append(["index", fresh[0], "none"])
+        cur[fresh[0]] = "none"
     small_ops(rng, some, used, npool, cmds, cur, rng.randrange(3, 12), pq=0.1, reset=False)
     vs = sorted({v for v in cur.values() if v != "none"})
     range_battery(rng, vs, npool, cmds, hot)
